@@ -265,7 +265,7 @@ func runOp(c driver.Case) driver.Result {
 	if flags.Has(catalog.Async) || flags.Has(catalog.HandOff) || flags.Has(catalog.TimeDriven) {
 		time.Sleep(8 * time.Millisecond)
 	}
-	_, settled := quiesce.Settle(2 * time.Second)
+	_, settled := quiesce.Settle(15 * time.Second)
 	res.Events = int64(r.Len()) + int64(emissions)
 	res.Sig = name + "/" + cut + "→" + r.TraceString()
 	terminated := r.Terminal() != rec.Next || strings.HasPrefix(cut, "unsub")
@@ -424,7 +424,7 @@ func runCreation(c driver.Case) driver.Result {
 	}
 	n0 := r.Len()
 	time.Sleep(6 * time.Millisecond) // several periods of the 1 ms timers
-	gs, settled := quiesce.Settle(2 * time.Second)
+	gs, settled := quiesce.Settle(15 * time.Second)
 	late := 0
 	for _, ev := range r.Events()[n0:] {
 		if ev.Kind == rec.Next {
